@@ -418,6 +418,9 @@ def nanvar(
     sum = reduce(reduce_func_name="sum", **kwargs)
     d = n - ddof
     if d == 0 or n == 0:
+        if np.asarray(arr).dtype.kind in "iub":
+            # the variance is a float whatever the type of the values, so its null is NaN
+            return np.nan
         return _null_value_for_numpy_type(arr.dtype)
     return (sum_sq - sum**2 / n) / d
 
